@@ -633,6 +633,9 @@ def add_sources(rng, shape):
             if flag != keep:
                 m[key] = "base"
         m[keep] = True
+        # @expose on the re-declared property object would test and mark the BASE function (its __name__, not this member's):
+        # not in the shape language
+        m["mark"] = False
 
 
 def has_del_flag(m):
